@@ -1,5 +1,6 @@
 """C12 — snapshot files round-trip and every damaged file is rejected safely."""
-GEN = True             # go/extract/c12.go regenerates lean/BlugeGen/C12.lean (which repairs the source contains)
+GEN = True             # go/extract/c12.go regenerates lean/BlugeGen/C12.lean: the call scripts of the 11 codec/loader functions
+                       # (every statement, normalised) + which repairs the source contains (4 flags)
 STATELESS = True      # every op line carries its whole input (file bytes, directory context, roaring verdicts)
 REQUIRED_BRANCHES = [
     "uv-ok", "uv-short", "uv-overflow",
@@ -7,6 +8,9 @@ REQUIRED_BRANCHES = [
     "rf-ok", "rf-err-version", "rf-err-negCount", "rf-err-eof", "rf-err-roaring",
     "ld-mm", "ld-nm", "ld-encoding", "ld-damaged", "ld-fallback-used", "ld-newest-accepted",
     "ld-newest-err-crc", "ld-newest-err-eof", "ld-newest-err-version", "ld-size-gt8192",
+    "ld-encoding-gt4096",                      # intact files beyond one read buffer (CRC accumulated over several reads)
+    "ld-noncanon-truncated-or-extended",       # CRC-consistent inputs with a field missing at the end / bytes behind the last segment
+    "ld-noncanon-overlong-or-payload",         # CRC-consistent inputs that spell a state with over-long uvarints / unwritten payloads
     "real:files",
 ]
 ASSUMPTIONS = [
@@ -22,6 +26,9 @@ ASSUMPTIONS = [
     "only where it does not depend on the CRC value (reject_* theorems) — beyond that the claim is partial",
 ]
 TRUSTED = [
+    "extractor go/extract/c12.go (renders every statement of WriteTo, recordSegment, writeVarLenString, ReadFrom, readFromVersion1, "
+    "readSegmentSnapshot, readVarLenString, readN, countHash{Writer.Write,Reader.Read}, loadSnapshot as one normalised line; refuses unknown forms); "
+    "the annotated tables lean/Bluge/C12/Script.lean say which model line transcribes which statement (compared by `rfl` on every run)",
     "hand-written model Bluge.Codec tied by the correspondence stream `codec` (go/harness/c12: real ReadFrom/WriteTo through the "
     "verif hook index/verif_snapshot.go, real index.OpenReader with both loaders in a child process)",
 ]
@@ -34,6 +41,8 @@ _SIGS = [
     ("bad:overalloc-del", "unchecked-alloc-deleted-bitmap"),
     ("bad:accepted-count-mismatch", "unchecked-numSegments"),
     ("bad:roundtrip-typelen", "roundtrip-type-length-outside-3-5"),
+    ("bad:accepted-truncated-or-extended-body", "accepted-truncated-or-extended-body"),
+    ("bad:accepted-noncanonical-overlong-or-payload", "accepted-noncanonical-overlong-or-payload"),
 ]
 
 
@@ -48,8 +57,10 @@ def signature(rec):
 
 LEVEL_TEXT = ("Lean 4 theorems about a byte-exact model of the snapshot codec (uvarint, bufio.Reader calls, CRC-32, encoder, decoder with "
               "outcomes ok/error/panic/alloc/fault, loadSnapshot, OpenReader's fallback walk): round trip for all snapshots, "
-              "uvarint round trip for all n < 2^64, characterisation of acceptance, CRC-independent rejection, safety of every byte string for the "
-              "repaired code and witnesses of its failure for the pinned code; the model is tied to /repo by the correspondence stream `codec`")
+              "uvarint round trip for all n < 2^64, the buffered decoder = a buffer-free grammar (sDecode) on every input, exact characterisation of acceptance "
+              "(after the length checks: the whole body is consumed and covered by the CRC), which accepted files are not encodings, CRC-independent rejection, "
+              "safety of every byte string for the repaired code and witnesses of its failure for the pinned code; the model is tied to /repo by the regenerated "
+              "call scripts (every statement of the codec functions = the annotated table the model transcribes) and by the correspondence stream `codec`")
 LEVEL_NOTE = ("trusted: Lean kernel + propext/Classical.choice/Quot.sound; hand-written model Bluge.Codec and harness go/harness/c12; "
               "roaring as a parameter; CRC-32 collision freedom not claimed (rejection beyond the CRC-independent part is partial)")
 TECHNIQUE = "Lean 4 proof (lists of bytes, structural induction) + differential correspondence run against the real codec and loader in a child process"
